@@ -11,7 +11,7 @@ from vlib.common import *
 from vlib import build, sched, treegen, scenarios, envrun, packcheck
 from vlib.treegen import E, content_pattern
 
-SCN_QUICK = ["+q5", "a1", "a2+q5", "a2+q5,+q5", "A2+Q5,b1", "01,a1+q3", "a2+q5,a2+q5", "+r20,+s20,a1", "+R20,+S20,+R20", "A1+R20,+S20,+R20,a1", "a1,+r20,+s20,+r20,b2", "F:a1+q5,a1", "D:a2,a2", "02+q3,+q3,a1"]
+SCN_QUICK = ["+q5", "a1", "+Q5,+R7,C:A4", "C:A1+Q5,+R7,B1", "a2+q5", "a2+q5,+q5", "A2+Q5,b1", "01,a1+q3", "a2+q5,a2+q5", "+r20,+s20,a1", "+R20,+S20,+R20", "A1+R20,+S20,+R20,a1", "a1,+r20,+s20,+r20,b2", "F:a1+q5,a1", "D:a2,a2", "02+q3,+q3,a1"]
 SCN_THOROUGH = SCN_QUICK + ["a3+q9,b1,+q9", "+r20,+s20,+t20,+r20,a2", "a1,b1,a1,b1", "A1+r20,+s20,A1+r20", "a2+q5,0a2+q5".replace("0a", "a"), "F:+q5,+q5,F:+q5"]
 
 
